@@ -15,7 +15,7 @@ EXPLANATION = ('The real move_mol_atom runs on symbolic coordinates, a symbolic 
                'displaced by exactly displ; the input array is untouched.  For cyclic graphs the traversal tree is read '
                'from the real deque traffic.  find_atom_random_displ runs with np.random.* replaced by fresh symbolic '
                'draws; perpendicularity is a polynomial identity per neighbour count.')
-BOUNDS = {'quick': {'trees': 'all labelled trees on 2..5 atoms (1+3+16+125), every moved atom', 'cyclic': '6 graphs on 3..5 atoms',
+BOUNDS = {'quick': {'trees': 'all labelled trees on 2..5 atoms (1+3+16+125), every moved atom', 'cyclic': '8 graphs on 3..6 atoms incl. rings with side chains',
                     'random displacement': 'neighbour counts 1,2,3,4'},
           'thorough': {'trees': 'all labelled trees on 2..6 atoms (+1296) and 7-atom chain/star/caterpillar/broom families, every moved atom',
                        'cyclic': 'all connected cyclic graphs on 3..5 atoms', 'neighbour order': 'sorted and reversed'}}
@@ -101,7 +101,9 @@ def cases(tier):
                 cs.append({'name': 'cyclic/n%d/%d' % (n, i), 'kind': 'cyclic', 'n': n, 'graphs': gs[i:i + 6], 'order': 'sorted'})
     else:
         quick_cyc = [(3, [(0, 1), (1, 2), (0, 2)]), (4, [(0, 1), (1, 2), (2, 3), (0, 3)]), (4, [(0, 1), (1, 2), (2, 3), (0, 3), (0, 2)]),
-                     (5, [(0, 1), (1, 2), (2, 3), (3, 4), (0, 4)]), (4, [(0, 1), (1, 2), (0, 2), (2, 3)]), (5, [(0, 1), (1, 2), (0, 2), (2, 3), (3, 4)])]
+                     (5, [(0, 1), (1, 2), (2, 3), (3, 4), (0, 4)]), (4, [(0, 1), (1, 2), (0, 2), (2, 3)]), (5, [(0, 1), (1, 2), (0, 2), (2, 3), (3, 4)]),
+                     # rings whose vertices carry side chains (a ring neighbour that is reached twice would drag its side chain)
+                     (5, [(0, 1), (1, 2), (0, 2), (1, 3), (2, 4)]), (6, [(0, 1), (1, 2), (2, 3), (0, 3), (1, 4), (3, 5)])]
         for k, (n, g) in enumerate(quick_cyc):
             cs.append({'name': 'cyclic/q%d' % k, 'kind': 'cyclic', 'n': n, 'graphs': [g], 'order': 'sorted'})
     for nb in (1, 2, 3, 4):
@@ -365,5 +367,18 @@ def replay(w):
             L = v['b%d_%d' % (a, b)]
             if abs(np.linalg.norm(out[a] - out[b]) - L) > 1e-9 * max(1, L):
                 bad.append('bond %d-%d length %.9g != table %.9g' % (a, b, np.linalg.norm(out[a] - out[b]), L))
+    if not is_tree and np.all(np.isfinite(out)):
+        # cyclic graph: the bonds that have exactly their tabulated length must contain a spanning tree (the traversal tree
+        # rooted at the moved atom, whatever order the implementation visits the atoms in)
+        exact = [(a, b) for a, b in edges if abs(np.linalg.norm(out[a] - out[b]) - v['b%d_%d' % (a, b)]) <= 1e-9 * max(1, v['b%d_%d' % (a, b)])]
+        seen, st_ = {moved}, [moved]
+        while st_:
+            x = st_.pop()
+            for a, b in exact:
+                y = b if a == x else a if b == x else None
+                if y is not None and y not in seen:
+                    seen.add(y); st_.append(y)
+        if len(seen) != n:
+            bad.append('the bonds with their tabulated length do not span the molecule from the moved atom (atoms %s cut off)' % sorted(set(range(n)) - seen))
     return {'reproduced': bool(bad), 'what': 'move_mol_atom (%s, moved atom %d): %s' % ('tree' if is_tree else 'cyclic', moved, '; '.join(bad)[:300]),
             'detail': {'edges': edges, 'x': X0.tolist(), 'displ': d.tolist(), 'out': np.asarray(out, dtype=float).tolist()}}
